@@ -257,10 +257,12 @@ META["C08"] = {'design_ref': 'DESIGN.md §5 C08',
  'technique': 'Lean 4 invariant proofs over a fine-grained transition system (all interleavings) + kernel-checked refutations + '
               'deterministic-scheduler correspondence with the real code',
  'text': 'Theorems over a fine-grained transition system (one atomic step of one goroutine per action; any number of shards and incarnations, EVERY '
-         'interleaving): the identity-checked registries (send and ack channels) never keep or lose a foreign entry, unconditionally; under explicit '
-         'decidable hypotheses, each excluding one interleaving window, no send reaches a closed channel outside recover (ReplayOK), every clean-up '
-         'removes only its own entries (StampsOK, UnregOK, RecvOK), nothing remains once all streams ended (RecvOK, OpenOK) and at quiescence every '
-         'registry holds exactly the newest live incarnation (all but ReplayOK) - all proved by induction over ~25 invariants, no sorry. The full '
-         'statement is refuted for the current tree by six kernel-checked witnesses (each shown to violate exactly one hypothesis), all replayed '
-         'deterministically on the real code on every run (known findings C08-*); the pre-fix clean-up (0c8aedd) is refuted on the plain reconnect. '
-         'Model tied to the real shard manager + routing servers by a deterministic point-level scheduler inside synctest bubbles.'}
+         'interleaving): the identity-checked registries (send and ack channels) never keep or lose a foreign entry, and no send reaches a closed '
+         'channel outside recover - both without any hypothesis; under explicit decidable hypotheses, each excluding one interleaving window, every '
+         'clean-up removes only its own entries (StampsOK, RecvOK), nothing remains once all streams ended (RecvOK, OpenOK) and at quiescence every '
+         'registry holds exactly the newest live incarnation (StampsOK, RecvOK, OpenOK, OrderOK) - all proved by induction over ~25 invariants, no '
+         'sorry. The full statement is refuted for the current tree by four kernel-checked witnesses (each shown to violate exactly one hypothesis), '
+         'all replayed deterministically on the real code on every run (known findings C08-*); three repaired defects (unconditional receiver '
+         'clean-up 0c8aedd, second delete in UnregisterShard, replay send without recover) are refuted for their before-fix configurations and shown '
+         'harmless on the current one. Model tied to the real shard manager + routing servers by a deterministic point-level scheduler inside '
+         'synctest bubbles.'}
